@@ -8,7 +8,7 @@
 EXTENDS MC_Compact, Json, IOUtils
 
 ValVecs == UNION { { [kind |-> "val", w |-> w, v |-> d] : d \in FamilyVals(w) } : w \in {4, 8, 16} }
-StrVecs == UNION { { [kind |-> "str", w |-> w, s |-> s] : s \in FamilyStrs } : w \in {4, 8, 16} }
+StrVecs == UNION { { [kind |-> "str", w |-> w, s |-> s] : s \in FamilyStrs } : w \in {1, 2, 4, 8, 16} }
 Vecs == SetToSeq(ValVecs) \o SetToSeq(StrVecs)
 
 ASSUME ndJsonSerialize(IOEnv.OUT, Vecs)
